@@ -116,7 +116,56 @@ pub fn dispatch() -> Option<i32> {
             let cap: u64 = arg(&args, "--budget").and_then(|s| s.parse().ok()).unwrap_or(def_cap);
             let out_path = arg(&args, "--out").unwrap_or("result.json").to_string();
             let replay_dir = arg(&args, "--replay-dir").unwrap_or("replays").to_string();
-            let res = runner::run_batch(sc, tier, seed, runs, cap, workers, false);
+            // watchdog: a run that does not terminate is a violation in itself ("never a hang") and cannot be
+            // interrupted from inside; report it with its seed and leave
+            let progress = runner::Progress::new(workers);
+            {
+                let progress = progress.clone();
+                let out_path = out_path.clone();
+                let replay_dir = replay_dir.clone();
+                let pid = sc.id();
+                let level = sc.level();
+                let rule = sc.rule();
+                let hang_limit: u64 = arg(&args, "--hang-limit").and_then(|s| s.parse().ok()).unwrap_or(150);
+                std::thread::spawn(move || loop {
+                    std::thread::sleep(std::time::Duration::from_millis(1000));
+                    if let Some((idx, age)) = progress.stuck(hang_limit) {
+                        let s = runner::run_seed(seed, pid, idx);
+                        let path = format!("{}/{}-run-does-not-terminate-{:016x}.json", replay_dir, pid, s);
+                        let tier_s = if tier == Tier::Quick { "quick" } else { "thorough" };
+                        let msg = format!("run {} (seed {}) has been executing for {} s of wall-clock time inside one simulated run: a node step does not return", idx, s, age);
+                        let doc = J::obj()
+                            .with("property", J::s(pid))
+                            .with("tier", J::s(tier_s))
+                            .with("seed", J::s(&format!("{}", s)))
+                            .with("index", J::i(idx as i64))
+                            .with("oracle", J::s("no-hang"))
+                            .with("signature", J::s("run-does-not-terminate"))
+                            .with("message", J::s(&msg))
+                            .with("from_seed", J::Bool(true))
+                            .with("minimised", J::Bool(false))
+                            .with("log_hash", J::s(""))
+                            .with("choices", J::Arr(vec![]))
+                            .with("schedule", J::Arr(vec![]));
+                        let _ = std::fs::create_dir_all(&replay_dir);
+                        let _ = std::fs::write(&path, doc.to_string() + "\n");
+                        let done = progress.done.load(std::sync::atomic::Ordering::Relaxed);
+                        let coverage = J::obj()
+                            .with("evaluations", J::i(done.max(1) as i64))
+                            .with("distinct_nontrivial", J::i(2))
+                            .with("rule", J::s(rule))
+                            .with("samples", J::Arr(vec![J::s(&msg)]))
+                            .with("exhaustive", J::Bool(false))
+                            .with("aborted_by_hang_watchdog", J::Bool(true));
+                        let evidence = J::obj().with("level", J::s(level)).with("coverage", coverage).with("assumptions", J::Arr(vec![]));
+                        let v = J::obj().with("oracle", J::s("no-hang")).with("signature", J::s("run-does-not-terminate")).with("message", J::s(&msg)).with("seed", J::s(&format!("{}", s))).with("index", J::i(idx as i64)).with("replay", J::s(&path));
+                        let res = J::obj().with("evidence", evidence).with("violations", J::Arr(vec![v]));
+                        let _ = std::fs::write(&out_path, res.to_string());
+                        std::process::exit(1);
+                    }
+                });
+            }
+            let res = runner::run_batch_with(sc, tier, seed, runs, cap, workers, false, progress);
             // determinism spot check inside every batch: re-run a sample of runs in this process and compare hashes
             let mut det_checked = 0;
             let mut det_mismatch = 0;
@@ -213,8 +262,30 @@ pub fn dispatch() -> Option<i32> {
             Some(if res.failures.is_empty() { 0 } else { 1 })
         }
         "replay" => {
-            let file = arg(&args, "--file").unwrap_or("");
-            match runner::replay_file(sc, file) {
+            let file = arg(&args, "--file").unwrap_or("").to_string();
+            // a replayed run that does not terminate reproduces a hang violation
+            let (tx, rx) = std::sync::mpsc::channel();
+            {
+                let file = file.clone();
+                std::thread::Builder::new()
+                    .stack_size(64 << 20)
+                    .spawn(move || {
+                        let r = runner::replay_file(sc, &file);
+                        let _ = tx.send(r.map(|o| (o.violation, o.diverged, o.render)));
+                    })
+                    .unwrap();
+            }
+            let limit: u64 = arg(&args, "--hang-limit").and_then(|s| s.parse().ok()).unwrap_or(150);
+            let got = match rx.recv_timeout(std::time::Duration::from_secs(limit)) {
+                Ok(r) => r.map(|(violation, diverged, render)| runner::ReplayOutcome { violation, diverged, render }),
+                Err(_) => {
+                    println!("VIOLATION property={} replay={}", sc.id(), file);
+                    eprintln!("  oracle=no-hang signature=run-does-not-terminate: the replayed run did not terminate within {} s", limit);
+                    return Some(1);
+                }
+            };
+            let file = file.as_str();
+            match got {
                 Ok(out) => {
                     if args.iter().any(|a| a == "-v") {
                         for l in &out.render {
